@@ -159,7 +159,7 @@ def apply(d, fname, old, new):
 OUT = None      # temporary output directory of the sub-runs (evidence, replays)
 
 
-def run_check(prop, tier, repo_path, env_extra=None, timeout=1800):
+def run_check(prop, tier, repo_path, env_extra=None, timeout=3600):
     "run check.py in a fresh interpreter; (exit code, stdout)"
     env = dict(os.environ)
     env.pop('PYTHONHASHSEED', None)
@@ -167,7 +167,10 @@ def run_check(prop, tier, repo_path, env_extra=None, timeout=1800):
     if env_extra:
         env.update(env_extra)
     cmd = [sys.executable, os.path.join(core.VERIF_DIR, 'check.py'), prop, tier, '--repo', repo_path]
-    p = subprocess.run(cmd, env=env, capture_output=True, text=True, timeout=timeout, check=False)
+    try:
+        p = subprocess.run(cmd, env=env, capture_output=True, text=True, timeout=timeout, check=False)
+    except subprocess.TimeoutExpired as e:
+        return 124, "sub-run timed out after %ss\n%s" % (timeout, (e.stdout or b'')[-1000:] if e.stdout else '')
     return p.returncode, p.stdout + p.stderr
 
 
